@@ -115,9 +115,18 @@ def run(repo: Repo, chk: Check, thorough: bool = False) -> None:
         if q not in reach_main:
             chk.error(f'phase entry {q} is no longer reachable from driver.main: the entry table is stale')
 
+    # the docstring parsers are selected by name at run time (import_module(f'pydoctor.epydoc.markup.{docformat}').get_parser): if the call graph loses that
+    # dispatch, every source inside the parsers silently drops out of R01.1 (it happened: a repair made get_parser return a functools.partial)
+    for fmt in ('epytext', 'restructuredtext', 'google', 'numpy', 'plaintext'):
+        qn_ = f'pydoctor.epydoc.markup.{fmt}.get_parser'
+        if qn_ in repo.funcs and qn_ not in reach_main:
+            chk.error(f'the parser entry {qn_} is not reachable from driver.main in the call graph: the dynamic-import dispatch model no longer matches')
+    for qn_ in ('pydoctor.epydoc.markup.epytext.parse_docstring', 'pydoctor.epydoc.markup.restructuredtext.parse_docstring'):
+        if qn_ not in reach_main:
+            chk.error(f'{qn_} is not reachable from driver.main in the call graph (parser dispatch lost)')
     # ---- R01.1
     check_escapes(repo, chk, cg, esc, PHASE_ENTRIES, 'R01.1')
-    chk.require('R01.1', 60)
+    chk.require('R01.1', 120)
     chk.stats['separator_strip_idioms'] = sorted(esc.t9_instances)
     if len(esc.t9_instances) < 2:
         chk.error(f'T9: {len(esc.t9_instances)} separator-strip idiom(s) found (2 confirmed by reading: assembleList.commasep, ClassPage.baseName)')
